@@ -254,11 +254,19 @@ async fn exec_async(case: Arc<Case>) -> CaseResult {
                     let r: Res<()> = async {
                         if inject_foreign {
                             // a stream naming a session that does not exist: never delivered
-                            let mut f = conn.open_uni().await.map_err(|e| e.to_string())?;
-                            let mut b = refcodec::enc_uni_header_wt(session + 4);
-                            b.extend_from_slice(b"foreign!");
-                            let _ = f.write_all(&b).await;
-                            let _ = f.finish();
+                            if bidi {
+                                let (mut f, _r) = conn.open_bi().await.map_err(|e| e.to_string())?;
+                                let mut b = refcodec::enc_bi_header_wt(session + 4);
+                                b.extend_from_slice(b"foreign!");
+                                let _ = f.write_all(&b).await;
+                                let _ = f.finish();
+                            } else {
+                                let mut f = conn.open_uni().await.map_err(|e| e.to_string())?;
+                                let mut b = refcodec::enc_uni_header_wt(session + 4);
+                                b.extend_from_slice(b"foreign!");
+                                let _ = f.write_all(&b).await;
+                                let _ = f.finish();
+                            }
                         }
                         if bidi {
                             let (mut s, mut r) = conn.open_bi().await.map_err(|e| e.to_string())?;
